@@ -158,6 +158,12 @@ def cases(tier, seed, shard, nshards):
                 k += 1
                 if k % nshards == shard:
                     yield {"k": "paths", "d": d, "stmt": stmt, "table": tb}
+    for d in DIALECT_CLASSES:
+        for depth in (0, 1, 2):
+            for inner in ("own", "generic"):
+                k += 1
+                if k % nshards == shard:
+                    yield {"k": "literal-forms", "d": d, "depth": depth, "inner": inner}
     # convention-sensitive leaves inside every operand slot of every term class (term-level nesting)
     from ..zoo import zoo
     for d in DIALECT_CLASSES:
@@ -781,6 +787,61 @@ def run_paths(case, mon):
     mon.nontrivial(case)
 
 
+def run_literal_forms(case, mon):
+    """Absolute expectations for literal forms a depth comparison cannot see (every depth shares the fault): the array literal -
+    empty and not - is ARRAY[..] / '{}' for PostgreSQL and [..] / [] elsewhere; a JSON document literal parses as JSON, whatever the
+    identifier quote of the dialect."""
+    import json as _json
+    r = R()
+    d = case["d"]
+    Q = r[d]
+    Qi = r["Query"] if case["inner"] == "generic" else Q
+    t = r["Table"]("lt")
+    doc = {"k": "v", "n": [1, "x`y", {"deep": "it's"}], "`bt`": "\"dq\""}
+    inner = (Qi.from_(t).select(r["JSON"](doc).as_("jd"), r["Array"]().as_("ea"), r["Array"](1, 2).as_("na"))
+             .where(t.j.contains({"a": "b`c"})).where(t.arr == []).where(t.j.has_any_keys([])).where(t.arr2 == [3, 4]))
+    root = inner
+    for lv in range(case["depth"]):
+        s_ = root.as_("l%d" % lv)
+        root = Q.from_(s_).select(s_.star)
+    try:
+        sql = root.get_sql(contexts()[d])
+    except Exception as e:
+        mon.violation("literal-forms:raises:%s" % type(e).__name__, "%s raised %r" % (d, e))
+        return
+    toks = tokenize(sql, d)
+    pg = DIALECT_OF.get(d) == "postgresql"
+    fam = DIALECT_OF[d] if d != "Query" else "generic"
+    mon.count("literal_form_statements")
+    # JSON documents: the two string literals that start with '{' and are not the empty-array literal
+    docs = [t_.value for t_ in toks if t_.kind == "STR" and t_.value.startswith("{") and t_.value != "{}"]
+    want_docs = [doc, {"a": "b`c"}]
+    if len(docs) != 2:
+        mon.violation("json-literal:missing:%s" % fam, "expected two JSON document literals, found %r in %r" % (docs, sql[:260]))
+        return
+    for got, want in zip(docs, want_docs):
+        try:
+            ok = _json.loads(got) == want
+        except ValueError:
+            ok = False
+        mon.count("json_documents_parsed")
+        if not ok:
+            mon.violation("json-literal:not-the-document:%s" % fam, "%s (depth %d, inner class %s): the JSON literal %r is not the document %r" % (
+                d, case["depth"], case["inner"], got[:120], want))
+            return
+    text = "".join(t_.text for t_ in toks)
+    empties = sum(1 for t_ in toks if t_.kind == "STR" and t_.value == "{}")
+    brackets = text.count("[]")
+    mon.count("array_literals_checked", 5)
+    if pg and not (empties == 3 and "ARRAY[1,2]" in text and "ARRAY[3,4]" in text):
+        mon.violation("array-literal:form:%s" % fam, "PostgreSQL array literals are '{}' / ARRAY[..]: %r" % sql[:260])
+        return
+    if not pg and not (empties == 0 and brackets == 3 and "[1,2]" in text and "[3,4]" in text and "ARRAY" not in text):
+        mon.violation("array-literal:form:%s" % fam, "%s (depth %d, inner class %s): array literals are [] / [..] outside PostgreSQL: %r" % (d, case["depth"], case["inner"], sql[:260]))
+        return
+    mon.nontrivial(case)
+
+
 OPERAND_SHAPES = ["plain", "where", "ordered", "limited", "offset", "sliced", "ordered-limited", "distinct", "grouped", "for-update"]
 WRAP_HOSTS = ["top", "from", "in", "join", "cte", "insert-select"]
 WRAPS = {"Query": True, "PostgreSQLQuery": True, "OracleQuery": True, "MSSQLQuery": True, "MySQLQuery": False, "SQLLiteQuery": False}
@@ -878,6 +939,8 @@ def run_case(case, mon):
         return run_wrapping(case, mon)
     if case["k"] == "paths":
         return run_paths(case, mon)
+    if case["k"] == "literal-forms":
+        return run_literal_forms(case, mon)
     if case["k"] == "two-positions":
         return run_two_positions(case, mon)
     if case["k"] == "shortcut":
